@@ -199,6 +199,20 @@ func (x *fnExec) loopBackEdge(fr *frame, li *loopInfo, from *ssa.BasicBlock, con
 		o := x.obligation(s2, fmt.Sprintf("%s:loop %d:inv#%s", funcKey(x.top), li.ordinal, cl.Label), "inv", "back edge from block "+fmt.Sprint(from.Index), clauseTags(fr.C, cl), goal, hyp, cl.Src)
 		o.skolems = sk
 	}
+	for _, cl := range spec.AtEnd {
+		if cl.Info == nil {
+			continue
+		}
+		// end of an iteration: the body's variables are resolved at the latch, not at the header
+		var term ssa.Instruction
+		if n := len(from.Instrs); n > 0 {
+			term = from.Instrs[n-1]
+		}
+		env := &specEnv{x: x, vars: copyVars(fr.vars), cur: s2, old: fr.entry, info: cl.Info, fr: fr, at: term}
+		goal, hyp, sk := env.clauseGoal(cl)
+		o := x.obligation(s2, fmt.Sprintf("%s:loop %d:atend#%s", funcKey(x.top), li.ordinal, cl.Label), "assert", "end of iteration (back edge from block "+fmt.Sprint(from.Index)+")", clauseTags(fr.C, cl), goal, hyp, cl.Src)
+		o.skolems = sk
+	}
 	if spec.Decreases != nil && spec.Decreases.Info != nil {
 		env := &specEnv{x: x, vars: copyVars(fr.vars), cur: s2, old: fr.entry, info: spec.Decreases.Info, fr: sf, loop: li}
 		nv := env.expr(spec.Decreases.Expr).T
